@@ -4,16 +4,17 @@ SPEC = {
     "lean_modules": ["SemaModel.C16.Props"],
     "lean_dirs": ["SemaModel/C16"],
     "harness": "c16",
-    "harness_args": {"quick": ["-n", 600], "thorough": ["-n", 5000]},
+    "harness_args": {"quick": ["-n", 600, "-storm", 150], "thorough": ["-n", 5000, "-storm", 1500]},
     "timeout": {"quick": 600, "thorough": 3000},
     "level": "proof",
-    "tie": "T2: tools/facts_c16c17 regenerates Generated/FactsC16.lean from the working tree (DBDELIMITER, USERCOLSDIR, the shape of every node-db key / scan prefix / filepath.Join below userCollections, the collection-id limits of the v1 and v2 handlers) and Props.lean pins the model to it; T3: go/cmd/c16 drives interleaved multi-user HTTP histories (httptest server, production router, real single node) and the Lean model on the same op lines, and evaluates the isolation oracle (responses and on-disk shard directories of every user equal those of a run without the other users) directly on the real node; the middleware variant (does it refuse 'X-User-Id: .') is probed at run time and told to the model",
+    "tie": "T2: tools/facts_c16c17 regenerates Generated/FactsC16.lean from the working tree (DBDELIMITER, USERCOLSDIR, the shape of every node-db key / scan prefix / filepath.Join below userCollections, the collection-id limits of the v1 and v2 handlers) and Props.lean pins the model to it; T3: go/cmd/c16 drives interleaved multi-user HTTP histories (httptest server, production router, real single node) and the Lean model on the same op lines, and evaluates the isolation oracle (responses and on-disk shard directories of every user equal those of a run without the other users) directly on the real node; the middleware variant (does it refuse 'X-User-Id: .') is probed at run time and told to the model; concurrent phase (go/cmd/c16/storm.go): one HTTP client per (tenant, collection) of tenants whose ids and collection names collide under every delimiter-free or reversed gluing, all clients at once, each tenant's answers and shard directories compared with a run of that tenant alone and with the model run client by client; T2 also pins the field list of struct ClusterNode and what the collection-level actions reach through their receiver",
     "required_theorems": [
         "Sema.C16.C16_key_inj", "Sema.C16.C16_prefix", "Sema.C16.C16_path_inj", "Sema.C16.C16_path_not_nested",
         "Sema.C16.C16_accept_valid", "Sema.C16.C16_accept_complete", "Sema.C16.C16_collid_valid",
         "Sema.C16.C16_wf_empty", "Sema.C16.C16_wf_step",
         "Sema.C16.C16_noninterference", "Sema.C16.C16_self", "Sema.C16.C16_histories", "Sema.C16.C16_rejected",
         "Sema.C16.C16_pinned_violation", "Sema.C16.C16_pinned_path_collision", "Sema.C16.C16_histories_pinned_partial",
+        "Sema.C16.C16_atomic", "Sema.C16.C16_concurrent", "Sema.C16.C16_only_filter", "Sema.C16.C16_any_interleaving", "Sema.C16.C16_client_fresh",
     ],
     "trusted_base": [
         "tools/facts_c16c17 (go/ast extractor) and the hand-written model SemaModel/C16/Model.lean; mitigated by the line-by-line correspondence over HTTP",
@@ -23,7 +24,8 @@ SPEC = {
         "net/http header parsing (values arrive as sent, minus surrounding blanks) and the Go 1.22 ServeMux path matching",
         "loaded-shard cache of the shard manager is not modelled: the model answers from disk; on the pinned variant the harness waits for the idle unload before comparing",
     ],
-    "assumptions": ["user ids are byte strings without '/' (property text); on the repaired tree the middleware enforces it, so the theorems need no hypothesis on the other users at all",
+    "assumptions": ["concurrency: a collection-scoped request is two atomic steps (look-up of the collection record, handler); the handler bodies are atomic in the model; the Go memory model is outside it",
+                    "user ids are byte strings without '/' (property text); on the repaired tree the middleware enforces it, so the theorems need no hypothesis on the other users at all",
                     "single node (the harness runs one server); multi-node routing of the same keys and paths is C13/C17"],
 }
 
@@ -34,7 +36,7 @@ def search(ctx):
     oracle on the real node."""
     r = ctx["runner"]
     out = os.path.join(ctx["rundir"], "search")
-    rc, o, dt = r.sh([ctx["hbin"], "-seed", str(ctx["seed"] + 7919), "-n", "900" if ctx["tier"] == "quick" else "4000", "-out", out], env=r.GOENV, timeout=2400)
+    rc, o, dt = r.sh([ctx["hbin"], "-seed", str(ctx["seed"] + 7919), "-n", "900" if ctx["tier"] == "quick" else "4000", "-storm", "400", "-out", out], env=r.GOENV, timeout=2400)
     sp = os.path.join(out, "stats.json")
     if not os.path.exists(sp):
         return None
